@@ -26,7 +26,8 @@ func checkC13(c *an.Ctx) {
 	}
 	c.OK("C13.0", "runner roles", r.run.Pos(), "ok")
 	ex := p.Func("pkg/executor", "DefaultExecutor", "Execute")
-	cc := p.Func("pkg/runner", "TaskCompiler", "CompileCommand")
+	ccr := resolveCmdCompiler(p)
+	cc := ccr.fn
 	if ex == nil || cc == nil {
 		c.Und("C13.0", "executor.(*DefaultExecutor).Execute", token.NoPos, "Execute / CompileCommand not found")
 		return
@@ -38,8 +39,7 @@ func checkC13(c *an.Ctx) {
 	an.EachInstr(cc, func(in ssa.Instruction) {
 		if st, ok := in.(*ssa.Store); ok {
 			if fa, ok := st.Addr.(*ssa.FieldAddr); ok && an.TypeField(fa) == "Job.Timeout" {
-				i := paramNamed(cc, "timeout")
-				if i >= 0 && an.SameValue(st.Val, cc.Params[i]) {
+				if ccr.isRole(st.Val, "timeout") {
 					okStore = true
 				}
 			}
@@ -47,10 +47,11 @@ func checkC13(c *an.Ctx) {
 	})
 	c.Check(okStore, "C13.2", an.Short(cc)+":Job.Timeout", cc.Pos(), "CompileCommand stores its timeout parameter in the job", "CompileCommand does not store its timeout parameter in Job.Timeout")
 	for _, site := range compileCommandSites(c, r) {
-		ap := an.AccessPath(argOf(site.call, cc, "timeout"))
-		good := ap.LastField() == "Timeout" && len(ap.Fields) == 1 && an.TypeIs(ap.Base.Type(), "pkg/task", "Task")
-		if !good {
-			good = c.P.DeepFieldProvCallers(argOf(site.call, cc, "timeout")) == "Task.Timeout"
+		toArg := ccr.arg1(site.call, "timeout")
+		ap := an.AccessPath(toArg)
+		good := toArg != nil && ap.LastField() == "Timeout" && len(ap.Fields) == 1 && an.TypeIs(ap.Base.Type(), "pkg/task", "Task")
+		if !good && toArg != nil {
+			good = c.P.DeepFieldProvCallers(toArg) == "Task.Timeout"
 		}
 		c.Check(good, "C13.2", an.Short(site.fn)+":CompileCommand("+site.kind+"):timeout", site.call.Pos(), "passes the task's Timeout", "the "+site.kind+" job is compiled without the task's timeout: "+ap.String())
 	}
